@@ -77,6 +77,8 @@ enum Unit {
     FarRepeat { m: usize },
     /// `half` simultaneously live values (spill slot numbers beyond 255 / 1024)
     Huge { half: usize },
+    /// root-only programs in which an op's operands are used again afterwards
+    Reuse(B),
     TooSmall,
 }
 
@@ -137,6 +139,9 @@ fn units(tier: Tier) -> Vec<Unit> {
     }
     for half in [300usize, 1400] {
         v.push(Unit::Huge { half });
+    }
+    for b in refsem::BINARY {
+        v.push(Unit::Reuse(b));
     }
     v
 }
@@ -442,7 +447,7 @@ impl Check for C01 {
 
     fn meta(&self, tier: Tier) -> Meta {
         Meta {
-            rule: "case = (program, register budget N); programs: (a) every opcode x operand form {reg, reg/reg, same-reg, reg/imm, imm/reg, imm/imm} x value alphabet V (+op-specific boundary values) squared; (b) every DAG with 1..=n operation nodes over leaves {X,Y,2.5} and ops {neg,sub,min,add} (commutative operands ordered, identical nodes merged, every node used), root variants {last; last+first; leaf+last; const+last; orphan+last}; (c) families fan/tree/stress for every width w; (d) output lists: every list of up to 5 (thorough 6) output bindings over 5 nodes {x*2, y+1, x-y, 3, x} (repeated nodes, constants and bare variables as outputs) and one node bound to the first and last of m+2 outputs for m = 1..16; (e) two huge programs with 300 and 1400 simultaneously live values (spill slot numbers beyond 255 and 1024) at budgets 3, 12, 255; each at every budget N in {3..12,16,255} under the point evaluator (3 points) and the many-point evaluator (3 lanes and 1 lane); distinct = distinct (context graph hash, N); non-trivial = tape contains at least one arithmetic op".into(),
+            rule: "case = (program, register budget N); programs: (a) every opcode x operand form {reg, reg/reg, same-reg, reg/imm, imm/reg, imm/imm} x value alphabet V (+op-specific boundary values) squared; (b) every DAG with 1..=n operation nodes over leaves {X,Y,2.5} and ops {neg,sub,min,add} (commutative operands ordered, identical nodes merged, every node used), root variants {last; last+first; leaf+last; const+last; orphan+last}; (c) families fan/tree/stress for every width w; (d) output lists: every list of up to 5 (thorough 6) output bindings over 5 nodes {x*2, y+1, x-y, 3, x} (repeated nodes, constants and bare variables as outputs) and one node bound to the first and last of m+2 outputs for m = 1..16; (e) for every binary opcode 11 root-only programs in which the op's operands are used again afterwards (register-sharing patterns); (f) budgets 1 and 2 - below the allocator's minimum - on every DAG and pressure DAG with <= 3 nodes and every reuse program: compiling or evaluating may panic or be right, never wrong; (g) two huge programs with 300 and 1400 simultaneously live values (spill slot numbers beyond 255 and 1024) at budgets 3, 12, 255; each at every budget N in {3..12,16,255} under the point evaluator (3 points) and the many-point evaluator (3 lanes and 1 lane); distinct = distinct (context graph hash, N); non-trivial = tape contains at least one arithmetic op".into(),
             bounds: match tier {
                 Tier::Quick => "DAG nodes <= 3 (root variants for all), family width <= 14 (+tree 30,40)".into(),
                 Tier::Thorough => "DAG nodes <= 5 (root variants for n <= 4), family width <= 24 (+tree 30,40)".into(),
@@ -530,7 +535,8 @@ impl Check for C01 {
             }
             Unit::TooSmall => {
                 // Budgets below the allocator's minimum must fail loudly or
-                // compute the right answer — never miscompile.
+                // compute the right answer - never miscompile.  (The same probe
+                // runs on every DAG, pressure DAG and reuse-pattern program.)
                 let progs = [
                     prog::family_fan(3, None, Order::Reverse, B::Add),
                     prog::family_fan(5, Some(U::Sin), Order::Forward, B::Sub),
@@ -538,55 +544,16 @@ impl Check for C01 {
                     prog::family_tree(2, B::Min),
                 ];
                 for p in &progs {
-                    let nv = p.nodes.iter().filter(|n| matches!(n, POp::Var(_))).count();
-                    let pts = generic_points(nv.max(2));
-                    for n in [1usize, 2] {
-                        let s = sub;
-                        sub += 1;
-                        if !cx.case(s) {
-                            continue;
-                        }
-                        cx.add("cases", 1);
-                        cx.add("too_small_budget_cases", 1);
-                        let mut ctx = Context::new();
-                        let roots = p.build(&mut ctx);
-                        let flat = Flat::from_ctx(&ctx, &roots);
-                        let pts: Vec<Vec<f32>> =
-                            pts.iter().map(|p| p[..flat.vars.len()].to_vec()).collect();
-                        let (mut vals, mut amb) = (vec![], vec![]);
-                        let expected: Vec<Vec<(f32, bool)>> = pts
-                            .iter()
-                            .map(|pt| {
-                                flat.eval_all(pt, &mut vals, &mut amb);
-                                flat.roots.iter().map(|r| (vals[*r], amb[*r])).collect()
-                            })
-                            .collect();
-                        // a panic anywhere is acceptable here ("fail loudly")
-                        let before = cx_violation_count(cx);
-                        let desc = || json!({"program": p.describe(), "budget": n});
-                        let r = guard(|| {
-                            let mut inner = TooSmallProbe::default();
-                            with_budget!(n, too_small, (&ctx, &roots, &flat, &pts, &expected, &mut inner));
-                            inner
-                        });
-                        match r {
-                            Err(_) => cx.add("too_small_budget_failed_loudly", 1),
-                            Ok(probe) => {
-                                if probe.panicked {
-                                    cx.add("too_small_budget_failed_loudly", 1);
-                                } else if let Some(m) = probe.mismatch {
-                                    cx.violation(
-                                        "value mismatch budget=1-2 (miscompiled instead of failing loudly)",
-                                        desc(),
-                                        m,
-                                    );
-                                } else {
-                                    cx.add("too_small_budget_computed_correctly", 1);
-                                }
-                            }
-                        }
-                        let _ = before;
-                    }
+                    probe_too_small(cx, &mut sub, p);
+                }
+            }
+            Unit::Reuse(b) => {
+                // operands used again after the op, in every pattern; root-only
+                // (exporting every node would keep all values live)
+                let pts = generic_points(2);
+                for p in prog::reuse_patterns(b) {
+                    check_program(cx, &mut sub, &p, &pts, &BUDGETS);
+                    probe_too_small(cx, &mut sub, &p);
                 }
             }
             Unit::Dag { n, prefix, variants } => {
@@ -601,6 +568,9 @@ impl Check for C01 {
                 let l = spec.leaves.len();
                 spec.for_each(n, &prefix, true, &mut |p, orphan| {
                     check_program(cx, &mut sub, p, &pts, budgets);
+                    if n <= 3 {
+                        probe_too_small(cx, &mut sub, p);
+                    }
                     if variants && orphan.is_none() {
                         let last = p.nodes.len() - 1;
                         let mut q = p.clone();
@@ -620,6 +590,9 @@ impl Check for C01 {
                 let pts = generic_points(4);
                 spec.for_each(n, &prefix, false, &mut |p, _| {
                     check_program(cx, &mut sub, p, &pts, &[3, 4, 5]);
+                    if n <= 3 {
+                        probe_too_small(cx, &mut sub, p);
+                    }
                 });
             }
             Unit::Fan { w } => {
@@ -715,6 +688,52 @@ pub fn far_repeat_prog(m: usize, variant: usize) -> Prog {
     r.push(h);
     q.roots = r;
     q
+}
+
+/// Budgets 1 and 2 (below the allocator's minimum): compiling or evaluating
+/// may panic ("fail loudly") or give the right answer, never a wrong one
+fn probe_too_small(cx: &mut Cx, sub: &mut u64, p: &Prog) {
+    let nv = p.nodes.iter().filter(|n| matches!(n, POp::Var(_))).count();
+    let pts = generic_points(nv.max(2));
+    for n in [1usize, 2] {
+        let s = *sub;
+        *sub += 1;
+        if !cx.case(s) {
+            continue;
+        }
+        cx.add("cases", 1);
+        cx.add("too_small_budget_cases", 1);
+        let mut ctx = Context::new();
+        let roots = p.build(&mut ctx);
+        let flat = Flat::from_ctx(&ctx, &roots);
+        let pts: Vec<Vec<f32>> = pts.iter().map(|p| p[..flat.vars.len()].to_vec()).collect();
+        let (mut vals, mut amb) = (vec![], vec![]);
+        let expected: Vec<Vec<(f32, bool)>> = pts
+            .iter()
+            .map(|pt| {
+                flat.eval_all(pt, &mut vals, &mut amb);
+                flat.roots.iter().map(|r| (vals[*r], amb[*r])).collect()
+            })
+            .collect();
+        let desc = || json!({"program": p.describe(), "budget": n});
+        let r = guard(|| {
+            let mut inner = TooSmallProbe::default();
+            with_budget!(n, too_small, (&ctx, &roots, &flat, &pts, &expected, &mut inner));
+            inner
+        });
+        match r {
+            Err(_) => cx.add("too_small_budget_failed_loudly", 1),
+            Ok(probe) => {
+                if probe.panicked {
+                    cx.add("too_small_budget_failed_loudly", 1);
+                } else if let Some(m) = probe.mismatch {
+                    cx.violation("value mismatch budget=1-2 (miscompiled instead of failing loudly)", desc(), m);
+                } else {
+                    cx.add("too_small_budget_computed_correctly", 1);
+                }
+            }
+        }
+    }
 }
 
 fn cx_violation_count(_cx: &Cx) -> u64 {
